@@ -35,7 +35,8 @@ META = {
                    "slot, post-dominance of the completion test, and an effect analysis of what the booking loop writes "
                    "versus what the gate reads."
                    " Also: per-member limit test inside the gate, order table of the stop condition (tolerance bounded by half a second), absence of rounding calls on the credited value path, release of the final slot in both directions and for every team member, single alternative candidate, and a team-wide bound on the amount booked per member (known finding F43)."
-                   " Round 3: the booked and credited amount derives from the ledger on every path and arm; process-state rule under Project.schedule.",
+                   " Round 3: the booked and credited amount derives from the ledger on every path and arm; process-state rule under Project.schedule."
+                   " Round 4: booking records identify the task by identity, seconds needed in the final slot (shared with C06), reservation for every member of a team.",
     "assumptions": [],
 }
 
